@@ -43,9 +43,9 @@ def gen_idman_ops(rng: random.Random, n: int) -> list[tuple]:
     return ops
 
 
-def impl_idman(ops) -> list[int]:
+def impl_idman(ops, existing=()) -> list[int]:
     from srctools.vmf import IDMan
-    m = IDMan()
+    m = IDMan(existing)
     out = []
     for op in ops:
         k = op[0]
@@ -80,8 +80,12 @@ def corr_idman(ck: Ck) -> None:
               [('Get', 2), ('Get', 1), ('Get', -1), ('Remove', 9), ('Discard', 2), ('Get', 0), ('Len',)]]
     for i in range(n):
         ops = corpus[i] if i < len(corpus) else gen_idman_ops(ck.rng, ck.rng.choice([3, 8, 20, 45]))
-        exp = impl_idman(ops)
-        cases.append((ops, exp))
+        # IDMan(existing): any starting set (also non-positive members); then a sweep of __contains__ over the range
+        existing = [] if i < len(corpus) or ck.rng.random() < 0.5 else [ck.rng.randint(-2, 9) for _ in range(ck.rng.choice([1, 3, 6]))]
+        ops = list(ops) + [('Contains', x) for x in range(-2, 14)] + [('Len',)]
+        exp = impl_idman(ops, existing)
+        cases.append((ops, exp, existing))
+        ck.hist('idman_existing', len(existing))
         ck.count('idman_sequences')
         ck.hist('idman_len', len(ops) // 10 * 10)
         for op in ops:
@@ -92,8 +96,8 @@ def corr_idman(ck: Ck) -> None:
     bad: list[int] = []
     for lo in range(0, len(cases), 500):
         part = cases[lo:lo + 500]
-        lit = coq_list(f'({coq_list(coq_op(o) for o in ops)}, {coq_Z_list(exp)})' for ops, exp in part)
-        vals = ck.coq_eval(IMPORTS, [f'bad_idx (fun c : list op * list Z => zl_eqb (run idman_lower_guard init (fst c)) (snd c)) 0 {lit}'],
+        lit = coq_list(f'(({coq_Z_list(ex)}, {coq_list(coq_op(o) for o in ops)}), {coq_Z_list(exp)})' for ops, exp, ex in part)
+        vals = ck.coq_eval(IMPORTS, [f'bad_idx (fun c : (list Z * list op) * list Z => zl_eqb (run idman_lower_guard (init_from (fst (fst c))) (snd (fst c))) (snd c)) 0 {lit}'],
                            name='idman', preamble=PRE)
         if vals is None:
             ck.obligation('correspondence:idman', False, 'model could not be evaluated')
@@ -104,9 +108,9 @@ def corr_idman(ck: Ck) -> None:
     ck.obligation('correspondence:idman', not bad,
                   f'{len(cases)} operation sequences, model (vm_compute) vs srctools.vmf.IDMan: {len(bad)} disagreements')
     if bad:
-        ops, exp = min((cases[i] for i in bad), key=lambda c: len(c[0]))
+        ops, exp, ex = min((cases[i] for i in bad), key=lambda c: len(c[0]))
         ck.tie_broken.append('correspondence IDMan (SM/IdMan.v run vs srctools.vmf.IDMan)')
-        ck.extra['idman_disagreement'] = {'ops': [coq_op(o) for o in ops], 'impl': exp}
+        ck.extra['idman_disagreement'] = {'existing': ex, 'ops': [coq_op(o) for o in ops], 'impl': exp}
 
 
 # ------------------------------------------------------------------------------------------------ fixups
@@ -271,6 +275,12 @@ def run_history(hist: list[tuple], record_release=None):
                 else:
                     vmf2.add_brush(o)
                 del o
+            elif op == 'collapse':  # the whole first map is collapsed into the second one as an instance
+                from srctools import instancing
+                from srctools.math import Matrix
+                inst = instancing.Instance('inst', '', Vec(16 * ev[1], 0, 0), Matrix())
+                instancing.collapse_one(vmf2, inst, instancing.InstanceFile(vmf), visgroup=bool(ev[2]))
+                del inst
             elif op == 'remove':
                 k = ev[1] % len(objs) if objs else None
                 if k is None or objs[k][1] is None or not objs[k][2] or objs[k][0] in ('group', 'vis'):
@@ -319,8 +329,10 @@ def gen_history(rng: random.Random, n: int, kinds) -> list[tuple]:
             h.append(('create', rng.choice(kinds), rng.choice([-1, -1, 0, -4, 1, 2, 2, 3, 5])))
         elif r < 0.46:
             h.append(('copy', rng.randint(0, 9)))
-        elif r < 0.52:
+        elif r < 0.50:
             h.append(('xcopy', rng.randint(0, 9)))
+        elif r < 0.53:
+            h.append(('collapse', rng.randint(0, 3), rng.randint(0, 1)))
         elif r < 0.70:
             h.append(('remove', rng.randint(0, 9)))
         elif r < 0.80:
@@ -342,6 +354,8 @@ CORPUS_HIST = [
     [('create', 'ent', 2), ('create', 'ent', 2), ('copy', 0), ('remove', 1), ('readd', 1), ('create', 'ent', 2)],
     [('create', 'brushent', 4), ('copy', 0), ('remove', 0), ('gc', 0), ('create', 'brushent', 1), ('create', 'solid', 1)],
     [('create', 'brushent', -1), ('xcopy', 0), ('create', 'solid', -1), ('xcopy', 1), ('xcopy', 0)],
+    [('create', 'brushent', 2), ('create', 'solid', 1), ('create', 'vis', 1), ('create', 'node', 1), ('collapse', 0, 1), ('collapse', 1, 0),
+     ('create', 'solid', -1), ('collapse', 2, 1)],
 ]
 
 
